@@ -1,6 +1,7 @@
 import Model
 import Proofs.SchedInv
 import Proofs.WFCheck
+import Proofs.Containers
 /-!
 C10 — containers summarise their children and book nothing.
 
@@ -88,5 +89,42 @@ theorem rollup_waits (e : Env) (σ : St) (t : Nat)
   unfold rollupT
   simp only [hall]
   split <;> simp
+
+/-! ### end to end -/
+
+/-- **C10, dates, for whole projects**: after scheduling any project whose task tree is well-formed (children are
+    declared after their parents — `treeCheck`), every scheduled container has all of its children scheduled, its start
+    is the minimum of its children's starts and its end the maximum of their ends (`childMinStart` / `childMaxEnd`
+    fold exactly those; `childMinStart_le` and its twin show they are bounds) -/
+theorem container_summarises_children (e : Env) (tr : Tree e) (c : Nat) (hnl : (e.taskD c).leaf = false)
+    (hs : ((runScenario e).tst c).scheduled = true) :
+    (∀ ch ∈ (e.taskD c).children, ((runScenario e).tst ch).scheduled = true) ∧
+    (∀ s, childMinStart (runScenario e) (e.taskD c).children = some s → ((runScenario e).tst c).start = some s) ∧
+    (∀ s, childMaxEnd (runScenario e) (e.taskD c).children = some s → ((runScenario e).tst c).stop = some s) :=
+  (runScenario_containers e tr).1 c hnl hs
+
+/-- … and a container with children is scheduled **iff** all of its children are -/
+theorem container_scheduled_iff (e : Env) (tr : Tree e) (c : Nat) (hnl : (e.taskD c).leaf = false)
+    (hne : (e.taskD c).children ≠ []) :
+    ((runScenario e).tst c).scheduled = true ↔ ∀ ch ∈ (e.taskD c).children, ((runScenario e).tst ch).scheduled = true :=
+  ⟨fun hs => ((runScenario_containers e tr).1 c hnl hs).1, fun hall => (runScenario_containers e tr).2 c hnl hne hall⟩
+
+/-- the same for an elaborated project description, under the decidable check on the tree -/
+theorem container_summarises_children_elab (p : RawProj) (h : treeCheck (elaborate p).env = true) (c : Nat)
+    (hnl : ((elaborate p).env.taskD c).leaf = false)
+    (hs : ((runScenario (elaborate p).env).tst c).scheduled = true) :
+    ContOK (elaborate p).env (runScenario (elaborate p).env) c :=
+  container_summarises_children _ (treeCheck_sound _ h) c hnl hs
+
+/-- non-vacuity: a container with two leaves below a container — children are declared after their parents -/
+def nested : RawProj :=
+  { G := 3600, start := 1736121600, stop := 1737331200,
+    res := [{}],
+    tasks := [{}, { parent := some 0 }, { parent := some 1, effort := some 1, alloc := some ([0], []) },
+              { parent := some 1, effort := some 2, alloc := some ([0], []) }] }
+
+example : treeCheck (elaborate nested).env = true := by decide +kernel
+example : ((elaborate nested).env.taskD 1).children = [2, 3] ∧ ((elaborate nested).env.taskD 1).leaf = false := by
+  decide +kernel
 
 end SP.C10
